@@ -10,12 +10,16 @@ META = {
 
 
 def run(c):
-    c.tlc_mc("FloodNet", "MCFloodNet.cfg")
-    c.tlc_mc("FloodNet", "MCFloodNet_canary_dup.cfg", expect="DeliverOnce")
-    c.tlc_mc("FloodNet", "MCFloodNet_canary_echo.cfg", expect="NoEcho")
-    c.tlc_mc("FloodNet", "MCFloodNet_canary_own.cfg", expect=["NoSelfDelivery", "ForwardOnce"])
+    c.tlc_mc("MCFloodNet", "MCFloodNet.cfg")
+    c.tlc_mc("MCFloodNet", "MCFloodNet_asym.cfg")
+    c.tlc_mc("MCFloodNet", "MCFloodNet_canary_dup.cfg", expect="DeliverOnce")
+    c.tlc_mc("MCFloodNet", "MCFloodNet_canary_echo.cfg", expect="NoEcho")
+    c.tlc_mc("MCFloodNet", "MCFloodNet_canary_own.cfg", expect=["NoSelfDelivery", "ForwardOnce"])
+    c.tlc_mc("MCFloodNet", "MCFloodNet_canary_own2.cfg", expect=["NoSelfDelivery", "ForwardOnce"])
     if not c.quick:
-        c.tlc_mc("FloodNet", "MCFloodNet_big.cfg", timeout=1500)
+        c.tlc_mc("MCFloodNet", "MCFloodNet_b4.cfg", timeout=1500)
+        c.tlc_mc("MCFloodNet", "MCFloodNet_big.cfg", timeout=1500)
+        c.tlc_mc("MCFloodNet", "MCFloodNet_big2.cfg", timeout=1500)
     drv = c.build("drv-xfloodsub")
     if c.replay:
         t = c.rundir / "replay_trace.ndjson"
